@@ -201,10 +201,10 @@ pub fn gen_op(rng: &mut Rng, mode: &str, bound: &mut [i64; 3], r: usize) -> Op {
             70..=74 => Op::Mul(rng.below(4) as u8, rng.range(-2, 3) as i32),
             75..=77 => Op::Neg(rng.below(2) as u8),
             78..=80 => Op::IterMut(*rng.pick(&[1, 2, -1]), *rng.pick(&[0, 1, -2])),
-            81..=86 => Op::Clone(q),
-            87..=90 => Op::IntoMap,
-            91..=94 => Op::IntoVec,
-            95..=96 => Op::Fmass,
+            81..=83 => Op::Clone(q),
+            84..=86 => Op::IntoMap,
+            87..=89 => Op::IntoVec,
+            90..=96 => Op::Fmass,
             _ => Op::FromPairs((0..rng.below(6)).map(|_| (rng.below(POOL.len() as u64) as usize, gen_count(rng))).collect()),
         }
     };
@@ -239,8 +239,20 @@ pub fn run(args: &[String]) {
         let mut bound = [0i64; 3];
         let mut ops: Vec<(usize, Op)> = Vec::new();
         for _ in 0..len {
-            let r = rng.below(3) as usize;
-            let op = gen_op(&mut rng, &mode, &mut bound, r);
+            // half of the time the register that has just cached its mass is the next one written to
+            // (a stale cache shows only in fmass -> write -> read on the same value)
+            let after_fmass = match ops.last() { Some((pr, Op::Fmass)) if rng.chance(3, 4) => Some(*pr), _ => None };
+            let r = after_fmass.unwrap_or_else(|| rng.below(3) as usize);
+            let mut op = gen_op(&mut rng, &mode, &mut bound, r);
+            if after_fmass.is_some() && rng.chance(2, 3) {
+                // ... through one of the in-place writers, on one of a few keys that is likely to be present already
+                let k = ops.iter().rev().find_map(|(pr, o)| match o {
+                    Op::Set(k, n) | Op::Inc(k, n) | Op::IdxSet(k, n) | Op::IdxAdd(k, n) if *pr == r && *n != 0 => Some(*k), _ => None })
+                    .unwrap_or_else(|| rng.below(6) as usize);
+                let n = 1 + rng.below(9) as i32;
+                bound[r] += n as i64;
+                op = match rng.below(4) { 0 => Op::IdxSet(k, n), 1 => Op::IdxAdd(k, n), 2 => Op::IdxStrSet(POOL[k].0.to_string(), n), _ => Op::Inc(k, n) };
+            }
             ops.push((r, op));
         }
         let mut fams = serde_json::Map::new();
